@@ -23,7 +23,9 @@ import Mathlib.Algebra.BigOperators.Intervals
 * **disjoint**: law of total covariance = Eq. 39 (`disjoint_total_cov`); the whole sample comes from
   the selected mode (`disjoint_gen`); the selection probability equals the fraction to the resolution of
   the uniform source (`selection_probability`).
-* coherent combinations: decided on the implementation only (cubature × phase quadrature); no theorem. -/
+* **coherent**: the ensemble mean equals `A + B` at every coherence for pure states, for any phase set
+  whose cosines and sines sum to zero (`coherent_instance`, `coherent_mean`); the covariance at zero
+  coherence is decided on the implementation only (cubature × phase quadrature). -/
 set_option linter.unusedSectionVars false
 set_option linter.unusedVariables false
 set_option linter.unusedSimpArgs false
@@ -423,6 +425,62 @@ theorem disjoint_gen (sel : Bool) (n : Nat) (k : Fin 4) :
   simp only [Sim.disjointGen, disjoint_fold field devs _ n]
   exact ⟨by simp [Sim.stokesDivN, ofNat_eq], trivial⟩
 end gen
+
+/-! ### coherent combinations: the mean at every coherence -/
+/-- the sesquilinear cross terms `a† σ_k b` of two spinors -/
+def crossM (a b : Spinor K) (k : Fin 4) : Cx K :=
+  match k with
+  | 0 => a.x.conj * b.x + a.y.conj * b.y
+  | 1 => a.x.conj * b.x - a.y.conj * b.y
+  | 2 => a.x.conj * b.y + a.y.conj * b.x
+  | 3 => ⟨(a.x.conj * b.y - a.y.conj * b.x).im, -(a.x.conj * b.y - a.y.conj * b.x).re⟩
+
+/-- `coherent::get_Stokes`, one instance: the Stokes parameters of `x·a + y·b` are linear in the Stokes
+parameters `s` of the coupling amplitudes `(x, y)` -/
+theorem coherent_instance (a b : Spinor K) (x y : Cx K) (k : Fin 4) :
+    Spinor.computeStokes (Spinor.add (Spinor.smulC x a) (Spinor.smulC y b)) k
+      = (1/2) * (Spinor.computeStokes ⟨x, y⟩ 0 + Spinor.computeStokes ⟨x, y⟩ 1) * Spinor.computeStokes a k
+        + (1/2) * (Spinor.computeStokes ⟨x, y⟩ 0 - Spinor.computeStokes ⟨x, y⟩ 1) * Spinor.computeStokes b k
+        + Spinor.computeStokes ⟨x, y⟩ 2 * (crossM a b k).re - Spinor.computeStokes ⟨x, y⟩ 3 * (crossM a b k).im := by
+  fin_cases k <;> simp [Spinor.computeStokes, Spinor.add, Spinor.smulC, crossM, epsic, Cx.norm_def] <;> ring
+
+/-- ensemble over the coupling mode's deviates, at a fixed phase: for pure states `a`, `b` of the two
+modes (`compute_stokes(a) = A`, `compute_stokes(b) = B`) and a coupling polarizer that is a root of
+`(2, 0, 2c·cs, 2c·sn)` -/
+theorem coherent_mean_fixed_phase (G : GaussE 4 K) (P : Jones K) (c cs sn : K) (a b : Spinor K)
+    (hP : IsRoot P (v4 2 0 (2*c*cs) (2*c*sn))) (k : Fin 4) :
+    G.E (fun g => Spinor.computeStokes (Spinor.add (Spinor.smulC (Sim.getField P g).x a) (Spinor.smulC (Sim.getField P g).y b)) k)
+      = Spinor.computeStokes a k + Spinor.computeStokes b k + 2 * c * (cs * (crossM a b k).re - sn * (crossM a b k).im) := by
+  have h0 := mean_stokes G P _ hP 0
+  have h1 := mean_stokes G P _ hP 1
+  have h2 := mean_stokes G P _ hP 2
+  have h3 := mean_stokes G P _ hP 3
+  have e : (fun g => Spinor.computeStokes (Spinor.add (Spinor.smulC (Sim.getField P g).x a) (Spinor.smulC (Sim.getField P g).y b)) k)
+      = fun g => ((1/2) * Spinor.computeStokes a k + (1/2) * Spinor.computeStokes b k) * Spinor.computeStokes (Sim.getField P g) 0
+          + (((1/2) * Spinor.computeStokes a k - (1/2) * Spinor.computeStokes b k) * Spinor.computeStokes (Sim.getField P g) 1
+          + ((crossM a b k).re * Spinor.computeStokes (Sim.getField P g) 2
+          + (-(crossM a b k).im) * Spinor.computeStokes (Sim.getField P g) 3)) := by
+    funext g
+    have := coherent_instance a b (Sim.getField P g).x (Sim.getField P g).y k
+    rw [show (⟨(Sim.getField P g).x, (Sim.getField P g).y⟩ : Spinor K) = Sim.getField P g from rfl] at this
+    rw [this]; ring
+  rw [e, G.add, G.add, G.add, G.smul, G.smul, G.smul, G.smul, h0, h1, h2, h3]
+  simp [v4]
+  ring
+
+/-- **coherent combination: the ensemble mean equals the predicted mean `A + B` at every coherence**:
+averaging over any set of phases whose cosines and sines sum to zero (the uniform phase; any `N ≥ 2`
+equally spaced phases) removes the interference term -/
+theorem coherent_mean (G : GaussE 4 K) (c : K) (a b : Spinor K) (N : Nat) (hN : (N : K) ≠ 0)
+    (P : Fin N → Jones K) (cs sn : Fin N → K)
+    (hP : ∀ i, IsRoot (P i) (v4 2 0 (2*c*cs i) (2*c*sn i))) (hcs : ∑ i, cs i = 0) (hsn : ∑ i, sn i = 0) (k : Fin 4) :
+    (∑ i, G.E (fun g => Spinor.computeStokes (Spinor.add (Spinor.smulC (Sim.getField (P i) g).x a) (Spinor.smulC (Sim.getField (P i) g).y b)) k)) / N
+      = Spinor.computeStokes a k + Spinor.computeStokes b k := by
+  simp only [coherent_mean_fixed_phase G _ c _ _ a b (hP _) k]
+  rw [Finset.sum_add_distrib, Finset.sum_const, Finset.card_univ, Fintype.card_fin, ← Finset.mul_sum, Finset.sum_sub_distrib,
+    ← Finset.sum_mul, ← Finset.sum_mul, hcs, hsn]
+  simp
+  field_simp
 
 theorem current_repairs : Sim.currentCompositeCountsRepaired = true ∧ Sim.currentCompositeZeroGuard = true := ⟨rfl, rfl⟩
 /-- before the repair the generator's second count was `unsigned (n - fraction)`: for `n = 8`, fraction ¼ it is 7, not 6 -/
